@@ -392,7 +392,9 @@ def initialize_pit(net):
     if get_net_option(net, "transient") and get_net_option(net,"simulation_time_step") != 0 and net.converged:
         create_old_pit(net, [TINIT], [TOUTINIT])
 
-    for comp in net['component_list']:
+    # valves attached to pipes re-wire the pipe rows of the branch pit, so the pipe rows have to be filled first, whatever the
+    # order of the component list (which follows the creation order of the elements for sector=Sector.NONE)
+    for comp in sorted(net['component_list'], key=lambda comp: comp.table_name() == "valve"):
         comp.create_pit_node_entries(net, pit["node"])
         comp.create_pit_branch_entries(net, pit["branch"])
         comp.create_component_array(net, pit["components"])
